@@ -280,6 +280,87 @@ theorem result_refines :
         · rintro ⟨r, hr, h⟩; exact ⟨r, hpM.mem_iff.mp hr, h⟩
         · rintro ⟨r, hr, h⟩; exact ⟨r, hpM.mem_iff.mpr hr, h⟩
 
+include hev hw hrel in
+theorem bad_iff (y : Nat) (q : CompiledRule) (hq : e.rules[y]? = some q) :
+    ((S.verdicts x ev rules).lookup q.name == Option.some S.Res.err) = true ↔ verdict x ev e y = .err := by
+  have hv := verdicts_spec x ev hev rules e hw (Rel2.imp (fun _ _ h => h.toRuleRel) hrel) y q hq
+  rw [hv]
+  cases verdict x ev e y with
+  | ok b => simp [toS]
+  | err => simp [toS]
+
+include hev hw hrel in
+/-- **the error status**: the scan returns an error exactly when the specification lists a failing rule -/
+theorem failing_iff :
+    (∃ i ∈ candidates e ev.source ev.id, ∃ y, (y = i ∨ y ∈ Dfs.dfsDepSearch (absEng e) i) ∧ verdict x ev e y = .err) ↔
+    (S.scan x ev rules).failing ≠ [] := by
+  have hlen := Rel2.length_eq hrel
+  have hrel' := Rel2.imp (fun _ _ (h : RuleRelFull x _ _) => h.toRuleRel) hrel
+  simp only [S.scan]
+  constructor
+  · rintro ⟨i, hi, y, hy, hv⟩
+    have hil := candidates_lt e hw _ _ i hi
+    have hc : e.rules[i]? = some e.rules[i] := by simp [hil]
+    have hs : rules[i]? = some rules[i] := by simp
+    have hr := Rel2.get hrel i _ _ hs hc
+    have hcs := (cand_idx x ev rules e hw hrel i _ _ hs hc).mp hi
+    have hmemc : rules[i] ∈ rules.filter (fun r => (r.rtype == RType.detection || r.rtype == RType.filter) && S.admits r.matchOn ev.source ev.id) :=
+      List.mem_filter.mpr ⟨List.mem_of_getElem? hs, by simpa [candS] using hcs⟩
+    rcases hy with rfl | hy
+    · apply List.ne_nil_of_mem (a := rules[y].name)
+      rw [List.mem_filter, List.mem_eraseDups, List.mem_flatMap]
+      refine ⟨⟨rules[y], hmemc, by simp⟩, ?_⟩
+      rw [hr.name]; exact (bad_iff x ev hev rules e hw hrel y _ hc).mpr hv
+    · obtain ⟨l, hl, hch⟩ := closures_spec x rules e hw hrel i _ hc
+      have hyl := dfs_members_lt hw.toWfCore i y hy
+      have hcy : e.rules[y]? = some e.rules[y] := by simp [hyl]
+      apply List.ne_nil_of_mem (a := e.rules[y].name)
+      rw [List.mem_filter, List.mem_eraseDups, List.mem_flatMap]
+      refine ⟨⟨rules[i], hmemc, ?_⟩, ?_⟩
+      · rw [List.mem_cons]; right
+        rw [hr.name, hl]; exact (hch _).mpr ⟨y, hy, _, hcy, rfl⟩
+      · exact (bad_iff x ev hev rules e hw hrel y _ hcy).mpr hv
+  · intro hne
+    obtain ⟨n, hn⟩ := List.exists_mem_of_ne_nil _ hne
+    rw [List.mem_filter, List.mem_eraseDups, List.mem_flatMap] at hn
+    obtain ⟨⟨r, hrc, hn⟩, hbad⟩ := hn
+    obtain ⟨hr, hcand⟩ := List.mem_filter.mp hrc
+    obtain ⟨i, hi⟩ := List.getElem?_of_mem hr
+    have hil : i < rules.length := (List.getElem?_eq_some_iff.mp hi).1
+    have hc : e.rules[i]? = some e.rules[i] := by simp
+    have hrr := Rel2.get hrel i _ _ hi hc
+    have hci : i ∈ candidates e ev.source ev.id :=
+      (cand_idx x ev rules e hw hrel i _ _ hi hc).mpr (by simpa [candS] using hcand)
+    refine ⟨i, hci, ?_⟩
+    rcases List.mem_cons.mp hn with rfl | hn
+    · refine ⟨i, Or.inl rfl, ?_⟩
+      rw [hrr.name] at hbad
+      exact (bad_iff x ev hev rules e hw hrel i _ hc).mp hbad
+    · obtain ⟨l, hl, hch⟩ := closures_spec x rules e hw hrel i _ hc
+      rw [hrr.name, hl] at hn
+      obtain ⟨y, hy, q, hq, hqn⟩ := (hch n).mp hn
+      refine ⟨y, Or.inr hy, ?_⟩
+      rw [← hqn] at hbad
+      exact (bad_iff x ev hev rules e hw hrel y q hq).mp hbad
+
+include hev hw hrel in
+/-- **Refinement of the specification by the model.**  For an engine whose compiled rules correspond one by
+    one to the structured rules (`RuleRelFull`), and any event with well-formed numeric values, `Engine.scan`
+    (the model of `Engine::scan`, with its candidate cache, dependency cache, DFS lists and per-scan memo)
+    never panics and returns
+      * the result `S.scan` specifies, as sets and values (`SrEq`), and
+      * an error exactly when `S.scan` lists a failing rule. -/
+theorem scan_refines_spec :
+    ∃ c sr err, Engine.scan x e ev = ({ e with rulesCache := c }, .done sr err) ∧
+      SrEq sr (S.scan x ev rules).result ∧
+      (err.isSome = true ↔ (S.scan x ev rules).failing ≠ []) := by
+  obtain ⟨c, sr, err, hs, _, hspec⟩ := C01.C01_scan x ev e hw
+  refine ⟨c, sr, err, hs, ?_, ?_⟩
+  · rw [hspec.result]
+    exact result_refines x ev hev rules e hw hrel
+  · rw [hspec.error_iff]
+    exact failing_iff x ev hev rules e hw hrel
+
 end scan
 
 end Gene.Props.Refine
